@@ -153,7 +153,9 @@ func (self *VM) spawnCore() *Core {
 	self.Cores.Lock.Lock()
 	defer self.Cores.Lock.Unlock()
 
-	ch := make(chan *value.VmInterrupt)
+	// Buffered, so that a core can always deliver its result and terminate,
+	// even if `Wait` has already returned because another core failed.
+	ch := make(chan *value.VmInterrupt, 1)
 	core := NewCore(
 		&self.Program.Functions,
 		hostcall,
